@@ -139,6 +139,8 @@ pub struct Profile {
     /// configuration knobs that must not change the logical script (C18)
     pub cap_shift: usize,
     pub perm_salt: u64,
+    /// percentage of commits during which one storage write is made to fail
+    pub fault_pct: usize,
 }
 
 pub fn profile(name: &str) -> Profile {
@@ -159,6 +161,7 @@ pub fn profile(name: &str) -> Profile {
         commit_after_update: 40,
         cap_shift: 0,
         perm_salt: 0,
+        fault_pct: 6,
     };
     match name {
         "general" => {}
@@ -821,12 +824,45 @@ impl World {
         let keys_before: BTreeSet<String> = store::dump(&self.reps[i].ad).keys().cloned().collect();
         let nw_before = self.reps[i].st.writes.lock().unwrap().len();
         let info = if self.prof.hostile_info { gen::rand_info(&mut self.r, self.step as u64) } else { Some(json!({"n": self.step}).as_object().unwrap().clone()) };
-        self.t(format!("r{}.commit({})", i, info.as_ref().map(|m| trunc(&Value::Object(m.clone()).to_string(), 120)).unwrap_or("None".into())));
+        // occasionally the backend refuses one write of this commit (the pack or the block)
+        let inject = before.has_staging && self.r.chance(self.prof.fault_pct);
+        let which = self.r.below(2);
+        if inject {
+            let n = *self.reps[i].st.nwrites.lock().unwrap();
+            *self.reps[i].st.fail_at.lock().unwrap() = vec![n + which];
+        }
+        self.t(format!("r{}.commit({}){}", i, info.as_ref().map(|m| trunc(&Value::Object(m.clone()).to_string(), 120)).unwrap_or("None".into()), if inject { format!(" [write #{} of this commit fails]", which) } else { String::new() }));
         let res = {
             let m = &self.reps[i].m;
             let inf = info.clone();
             guard(move || m.commit(inf))
         };
+        if inject {
+            let hit = self.reps[i].st.writes.lock().unwrap()[nw_before..].iter().any(|e| e.injected_fail);
+            self.reps[i].st.fail_at.lock().unwrap().clear();
+            if hit {
+                self.res.feat_add("commits_with_write_failure", 1);
+                match &res {
+                    Outcome::Err(_) => {
+                        let after = observe(&self.reps[i].m);
+                        if !after.has_staging {
+                            self.res.viol("C09", "failed-commit-lost-staging", format!("step {}", self.step));
+                        }
+                        if after.doc != before.doc {
+                            self.res.viol("C09", "failed-commit-changed-document", before.diff(&after));
+                        }
+                        if after.anchors != before.anchors {
+                            self.res.viol("C13", "failed-commit-changed-heads", format!("{:?} -> {:?}", before.anchors, after.anchors));
+                        }
+                        return;
+                    }
+                    Outcome::Ok(_) => {
+                        self.res.viol("C09", "commit-succeeded-although-a-write-failed", format!("step {}", self.step));
+                    }
+                    Outcome::Panic(_) => {}
+                }
+            }
+        }
         self.res.count("commits_called", 1);
         match res {
             Outcome::Ok(Some(an)) => {
@@ -1373,9 +1409,13 @@ impl World {
                         let perm = *self.reps[i].st.perm_seed.lock().unwrap();
                         let (ad, st) = store::mon_over(b);
                         *st.perm_seed.lock().unwrap() = perm;
+                        // keep the write history: it orders items independently of their names
+                        let old = self.reps[i].st.writes.lock().unwrap().clone();
+                        *st.nwrites.lock().unwrap() = *self.reps[i].st.nwrites.lock().unwrap();
+                        self.reps[i].writes_seen = old.len();
+                        *st.writes.lock().unwrap() = old;
                         self.reps[i].ad = ad;
                         self.reps[i].st = st;
-                        self.reps[i].writes_seen = 0;
                     }
                     o => {
                         let what = format!("backend-reopen-failed-{}", self.prof.backend.replace('+', "-"));
@@ -1416,6 +1456,13 @@ impl World {
         let src = store::dump(&self.reps[j].ad);
         let have: BTreeSet<String> = store::dump(&self.reps[i].ad).keys().cloned().collect();
         let mut missing: Vec<String> = src.keys().filter(|k| !have.contains(*k)).cloned().collect();
+        // item names differ from run to run (hash-map order feeds the bytes of packs and blocks): order the
+        // candidates by when the source replica's storage first received them, which is name independent
+        {
+            let log = self.reps[j].st.writes.lock().unwrap();
+            let first: BTreeMap<&str, usize> = log.iter().filter(|e| e.ok).rev().map(|e| (e.key.as_str(), e.seq)).collect();
+            missing.sort_by_key(|k| first.get(k.as_str()).copied().unwrap_or(usize::MAX));
+        }
         self.r.shuffle(&mut missing);
         let take = if self.r.chance(50) { missing.len() } else { self.r.below(missing.len() + 1) };
         self.t(format!("r{}.filecopy(from r{}, {} of {} items)", i, j, take, missing.len()));
